@@ -106,8 +106,8 @@ def r1(c):
     ok = isinstance(y.value, ast.Tuple) and norm(y.value.elts[0]) == "len(indents)" and any("isinstance(line, str)" in a for a in G.atoms(f))
     c.check("C05.R1", ok, repo.loc(m, y), "_stripped_indents/yield", "the depth yielded is not len(indents), or non-string markers are yielded as rows", key_text="yield")
     resets = [n for n in walk_no_nested(fn) if isinstance(n, ast.Assign) and norm(n.targets[0]) in ("indents", "curr_level", "g_level") and gm.conds[id(n)]
-              and any("BlockEnd" in norm(t) for t, p in gm.of(n))]
-    c.check("C05.R1", len(resets) == 3, repo.loc(m, fn), "_stripped_indents/reset-on-BlockEnd", "the indent stack, current level and base offset are not all reset at a section break", key_text="reset")
+              and G.implies(gm.formula(n, G.GuardEnv(rename=lambda s_: "is_end" if s_ in ("line is BlockEnd", "BlockEnd is line") else s_)), G.Atom("is_end"))]
+    c.check("C05.R1", {norm(n.targets[0]) for n in resets} == {"indents", "curr_level", "g_level"}, repo.loc(m, fn), "_stripped_indents/reset-on-BlockEnd", "the indent stack, current level and base offset are not all reset at a section break", key_text="reset")
 
 
 def r2(c):
@@ -293,21 +293,171 @@ def r3(c):
     c.check("C05.R3", ok, repo.loc(m, sk), "_stacked/one-stack-per-line", "not exactly one path is yielded per line", key_text="stacked-yield")
     if ok:
         S = ys[0].value.args[0].id
-        push = [x for x in calls_in(sk) if isinstance(x.func, ast.Attribute) and x.func.attr == "append" and norm(x.func.value) == S]
-        rep = [n for n in walk_no_nested(sk) if isinstance(n, ast.Assign) and norm(n.targets[0]) == f"{S}[-1]"]
-        trunc = [n for n in walk_no_nested(sk) if isinstance(n, ast.Assign) and norm(n.targets[0]) == S and any(isinstance(x, ast.Subscript) and isinstance(x.slice, ast.Slice) and norm(x.value) == S
-                                                                                                                  for x in ast.walk(n.value))]
-        okk = len(push) >= 1 and len(rep) == 1 and len(trunc) == 1
-        if okk:
-            def depth_test(node, order):
-                for t, pol in gms.of(node):
-                    for cm in ast.walk(t):
-                        if isinstance(cm, ast.Compare) and len(cm.ops) == 1 and f"len({S})" in (norm(cm.left), norm(cm.comparators[0])):
-                            other = norm(cm.comparators[0]) if norm(cm.left) == f"len({S})" else norm(cm.left)
-                            v = cmp_under(cm, other, f"len({S})", order)
-                            if v is not None:
-                                return v if pol else (not v)
-                return None
-            deeper_push = [p_ for p_ in push if depth_test(p_, ">") is True and depth_test(p_, "==") is False]
-            okk = bool(deeper_push) and depth_test(rep[0], "==") is True and depth_test(rep[0], ">") is False and depth_test(trunc[0], "<") is True
-        c.check("C05.R3", okk, repo.loc(m, sk), "_stacked/arms", "push (deeper) / replace-top (same depth) / truncate (shallower) arms of the path stack are not all present", key_text="stacked-arms")
+        okk, why = _stack_semantics(sk, S)
+        c.check("C05.R3", okk, repo.loc(m, sk), "_stacked/arms", f"after a line at depth d the path stack is not old[:d] + [line] on every branch ({why}): deeper -> push, same depth -> "
+                "replace the top, shallower -> truncate", key_text="stacked-arms")
+
+
+def _lin(e, syms):
+    """linear form {symbol: coef, 1: const} of an expression over the given symbol texts (others make it None)"""
+    if isinstance(e, ast.Constant) and isinstance(e.value, int) and not isinstance(e.value, bool):
+        return {1: e.value}
+    t = norm(e)
+    if t in syms:
+        return {syms[t]: 1}
+    if isinstance(e, ast.BinOp) and isinstance(e.op, (ast.Add, ast.Sub)):
+        a_, b_ = _lin(e.left, syms), _lin(e.right, syms)
+        if a_ is None or b_ is None:
+            return None
+        out = dict(a_)
+        sg = 1 if isinstance(e.op, ast.Add) else -1
+        for k, v in b_.items():
+            out[k] = out.get(k, 0) + sg * v
+        return out
+    if isinstance(e, ast.UnaryOp) and isinstance(e.op, ast.USub):
+        a_ = _lin(e.operand, syms)
+        return None if a_ is None else {k: -v for k, v in a_.items()}
+    return None
+
+
+def _sub(a_, b_):
+    out = dict(a_)
+    for k, v in b_.items():
+        out[k] = out.get(k, 0) - v
+    return {k: v for k, v in out.items() if v != 0}
+
+
+def _stack_semantics(fn, S):
+    """abstract interpretation of one iteration of _stacked's loop: the stack is `kept` leading elements of its old value followed by `suffix`;
+    on every path the result must be old[:d] + [line] where d is the depth the line arrived with (d <= len(old) is the producer's invariant)"""
+    loops = [n for n in fn.body if isinstance(n, ast.For) and isinstance(n.target, ast.Tuple) and len(n.target.elts) == 2 and all(isinstance(e, ast.Name) for e in n.target.elts)]
+    if len(loops) != 1:
+        return False, "loop over (level, line) not found"
+    loop = loops[0]
+    LV, LINE = loop.target.elts[0].id, loop.target.elts[1].id
+    results = []
+
+    def run(stmts, st):
+        # st: dict(level=lin of the level variable, locals={name: lin}, kept=None|lin, suffix=[texts], conds=[(lin, op)])
+        for i, x in enumerate(stmts):
+            syms = {LV: "LEVEL", f"len({S})": "n"}
+            def lin(e):
+                l = _lin(e, {**{k: k for k in st["locals"]}, f"len({S})": "n", LV: LV})
+                if l is None:
+                    return None
+                out = {}
+                for k, v in l.items():
+                    src = st["level"] if k == LV else st["locals"].get(k, {k: 1} if k in ("n", 1) else None)
+                    if k in ("n", 1):
+                        out[k] = out.get(k, 0) + v
+                        continue
+                    if src is None:
+                        return None
+                    for kk, vv in src.items():
+                        out[kk] = out.get(kk, 0) + v * vv
+                return {k: v for k, v in out.items() if v != 0}
+            if isinstance(x, ast.If):
+                t = x.test
+                neg = False
+                while isinstance(t, ast.UnaryOp) and isinstance(t.op, ast.Not):
+                    t, neg = t.operand, not neg
+                rel = None
+                if isinstance(t, ast.Compare) and len(t.ops) == 1:
+                    a_, b_ = lin(t.left), lin(t.comparators[0])
+                    if a_ is not None and b_ is not None:
+                        rel = (_sub(a_, b_), type(t.ops[0]).__name__)
+                for pol, arm in ((True, x.body), (False, x.orelse)):
+                    s2 = {"level": dict(st["level"]), "locals": {k: dict(v) for k, v in st["locals"].items()}, "kept": None if st["kept"] is None else dict(st["kept"]),
+                          "suffix": list(st["suffix"]), "conds": list(st["conds"]), "bad": st["bad"]}
+                    if rel is not None:
+                        op = rel[1]
+                        if pol == neg:
+                            op = {"Gt": "LtE", "GtE": "Lt", "Lt": "GtE", "LtE": "Gt", "Eq": "NotEq", "NotEq": "Eq"}.get(op, op)
+                        s2["conds"].append((rel[0], op))
+                    run(list(arm) + list(stmts[i + 1:]), s2)
+                return
+            if isinstance(x, ast.AugAssign) and isinstance(x.target, ast.Name) and isinstance(x.op, (ast.Add, ast.Sub)) and x.target.id in ([LV] + list(st["locals"])):
+                d_ = lin(x.value)
+                if d_ is None:
+                    st["bad"] = "non-linear update of the depth"
+                    continue
+                cur = st["level"] if x.target.id == LV else st["locals"][x.target.id]
+                for k, v in d_.items():
+                    cur[k] = cur.get(k, 0) + (v if isinstance(x.op, ast.Add) else -v)
+                continue
+            if isinstance(x, ast.Assign) and len(x.targets) == 1 and isinstance(x.targets[0], ast.Name) and x.targets[0].id != S:
+                l = lin(x.value)
+                if l is not None:
+                    if x.targets[0].id == LV:
+                        st["level"] = l
+                    else:
+                        st["locals"][x.targets[0].id] = l
+                continue
+            # stack operations
+            if isinstance(x, ast.Expr) and isinstance(x.value, ast.Call) and isinstance(x.value.func, ast.Attribute) and norm(x.value.func.value) == S and x.value.func.attr == "append" and len(x.value.args) == 1:
+                st["suffix"].append(norm(x.value.args[0]))
+                continue
+            if isinstance(x, ast.Assign) and norm(x.targets[0]) == f"{S}[-1]":
+                if st["suffix"]:
+                    st["suffix"][-1] = norm(x.value)
+                else:
+                    base = st["kept"] if st["kept"] is not None else {"n": 1}
+                    st["kept"] = _sub(base, {1: 1})
+                    st["suffix"] = [norm(x.value)]
+                continue
+            if isinstance(x, ast.Delete) and len(x.targets) == 1 and isinstance(x.targets[0], ast.Subscript) and norm(x.targets[0].value) == S and isinstance(x.targets[0].slice, ast.Slice) \
+                    and x.targets[0].slice.upper is None and x.targets[0].slice.lower is not None and not st["suffix"]:
+                l = lin(x.targets[0].slice.lower)
+                if l is None:
+                    st["bad"] = "truncation at a non-linear position"
+                else:
+                    st["kept"] = l
+                continue
+            if isinstance(x, ast.Assign) and norm(x.targets[0]) == S and isinstance(x.value, ast.BinOp) and isinstance(x.value.op, ast.Add) and isinstance(x.value.left, ast.Subscript) \
+                    and norm(x.value.left.value) == S and isinstance(x.value.left.slice, ast.Slice) and x.value.left.slice.lower is None and x.value.left.slice.upper is not None \
+                    and isinstance(x.value.right, ast.List) and not st["suffix"]:
+                l = lin(x.value.left.slice.upper)
+                if l is None:
+                    st["bad"] = "truncation at a non-linear position"
+                else:
+                    st["kept"] = l
+                    st["suffix"] = [norm(e) for e in x.value.right.elts]
+                continue
+            if isinstance(x, ast.Assign) and norm(x.targets[0]) == S and isinstance(x.value, ast.Subscript) and norm(x.value.value) == S and isinstance(x.value.slice, ast.Slice) \
+                    and x.value.slice.lower is None and x.value.slice.upper is not None and not st["suffix"]:
+                l = lin(x.value.slice.upper)
+                if l is None:
+                    st["bad"] = "truncation at a non-linear position"
+                else:
+                    st["kept"] = l
+                continue
+            if isinstance(x, ast.Expr) and isinstance(x.value, ast.Yield):
+                results.append(st)
+                continue
+            if isinstance(x, (ast.Pass,)) or (isinstance(x, ast.Expr) and isinstance(x.value, ast.Constant)):
+                continue
+            st["bad"] = f"unrecognised statement `{norm(x)[:40]}`"
+        return
+    run(list(loop.body), {"level": {"d": 1}, "locals": {}, "kept": None, "suffix": [], "conds": [], "bad": None})
+    if not results:
+        return False, "no yield reached"
+    D = {"d": 1}
+    for st in results:
+        if st["bad"]:
+            return False, st["bad"]
+        if st["suffix"] != [LINE]:
+            return False, f"a branch leaves {st['suffix']} on top instead of the line"
+        eqs = [l for l, op in st["conds"] if op == "Eq"]
+        if st["kept"] is None:
+            # nothing removed: right only when the line is deeper than everything on the stack (d >= len)
+            need = _sub(D, {"n": 1})            # d - n >= 0
+            ok = any((op == "Gt" and _sub(l, need) == {1: 1}) or (op == "GtE" and _sub(l, need) == {}) or (op == "Lt" and _sub({k: -v for k, v in l.items()}, need) == {1: 1})
+                     or (op == "LtE" and _sub({k: -v for k, v in l.items()}, need) == {}) for l, op in st["conds"])
+            if not ok:
+                return False, "a branch keeps the whole stack without knowing that the line is deeper than its top"
+        else:
+            diff = _sub(st["kept"], D)
+            ok = diff == {} or any(_sub(diff, e) == {} or _sub(diff, {k: -v for k, v in e.items()}) == {} for e in eqs)
+            if not ok:
+                return False, f"a branch keeps old[:{st['kept']}] instead of old[:d]"
+    return True, ""
